@@ -11,9 +11,13 @@ import vlib
 INF = 100000
 
 
-def generate(cfg, timeout):
-    """runs TLC on DiffLogicGen and returns (atoms, tests)"""
-    r = vlib.tlc('DiffLogicGen', cfg=cfg, workers=1, timeout=timeout)
+def generate(cfg, timeout, walks=None):
+    """runs TLC on DiffLogicGen and returns (atoms, tests); walks = (number per worker, seed): random walks over the model
+    (tlc -simulate) instead of the exhaustive search"""
+    if walks:
+        r = vlib.tlc('DiffLogicGen', cfg=cfg, workers=4, timeout=timeout, simulate='num=%d' % walks[0], depth=16, extra=('-seed', str(walks[1])))
+    else:
+        r = vlib.tlc('DiffLogicGen', cfg=cfg, workers=1, timeout=timeout)
     if not r['no_error']:
         raise vlib.CheckError('DiffLogicGen/%s failed:\n%s' % (cfg, r['out'][-1500:]))
     atoms, tests = None, []
@@ -79,19 +83,29 @@ def translate(atoms, test, real):
             lines.append(js({'e': 'assume', 'p': lit(dvar[a])}))
             last = ops[b - 1]
             if last[0] == 'conflict':
-                cps.append((len(lines) - 1, 'conflict', ('bases', level, bases)))
+                cps.append((len(lines) - 1, 'conflict', ('bases', level, bases), None, None))
             else:
-                cps.append((len(lines) - 1, 'episode', last[-1]))
+                # the reasons the model records during the episode; an atom that is asserted later in the same episode is
+                # already assigned in the library when the theory would explain it (the sat core enqueues the whole level
+                # first): no reason is recorded for it there
+                lem = []
+                for k in range(a + 1, b):
+                    later = {abs(x[1]) for x in ops[k + 1:b]}
+                    lem += [sorted(c) for c in ops[k][3] if not ({abs(l) for l in c} & later)]
+                cps.append((len(lines) - 1, 'episode', last[-1], last[-2], lem))
             i = b
         elif o[0] == 'pop':
             level -= 1
             lines.append(js({'e': 'pop'}))
-            cps.append((len(lines) - 1, 'pop', o[-1]))
+            cps.append((len(lines) - 1, 'pop', o[-1], o[-2], []))
             i += 1
         else:  # an assert at root level
             lines.append(js({'e': 'new_clause', 'lits': [lit(o[1], o[2] == 'T')]}))
             lines.append(js({'e': 'propagate'}))
-            cps.append((len(lines) - 1, 'root-' + o[0], 'dead' if o[0] == 'conflict' else o[-1]))
+            if o[0] == 'conflict':
+                cps.append((len(lines) - 1, 'root-conflict', 'dead', None, None))
+            else:
+                cps.append((len(lines) - 1, 'root-assert', o[-1], o[-2], [sorted(c) for c in o[3]]))
             i += 1
     return lines, cps
 
@@ -126,12 +140,40 @@ def compare(model_mat, out, real, scale):
     return None
 
 
-def run(ev, prop, tier, real):
+VAL = {'F': 0, 'T': 1, 'U': 2}
+
+
+def compare_vals(vals, out, natoms):
+    """the value of every atom: what was asserted, else what the theory propagated (complete and sound propagation)"""
+    got = out['vals'][1:natoms + 1]
+    want = [VAL[x] for x in vals]
+    if got != want:
+        k = [i for i in range(natoms) if got[i] != want[i]][0]
+        return 'atom %d has value %s in the library, %s in the model (0 false, 1 true, 2 undefined)' % (k + 1, got[k], want[k])
+    return None
+
+
+def lemma_deviation(lem, out):
+    """every reason the theory records (learnt clause of origin 0) is one the model records for the same episode"""
+    want = {tuple(c) for c in lem}
+    for h in out.get('hooks', []):
+        if h.get('k') == 'learnt' and h.get('o') == 0:
+            got = tuple(sorted((x // 2) * (1 if x % 2 == 1 else -1) for x in h['lits']))
+            if got not in want:
+                return 'the theory recorded the reason %s, the model records %s' % (list(got), sorted(want))
+    return None
+
+
+def run(ev, prop, tier, real, extra=None):
     """returns the number of violations reported"""
     kind = 'rdl' if real else 'idl'
-    cfg = 'DiffLogicGen_%s%s.cfg' % (kind, '' if tier == 'quick' else '_thorough')
-    atoms, tests, r = generate(cfg, 600 if tier == 'quick' else 3000)
-    ev.add_model(r, 'test generation: one test per transition of DiffLogicImpl (%s)' % cfg)
+    cfg = extra or 'DiffLogicGen_%s%s.cfg' % (kind, '' if tier == 'quick' else '_thorough')
+    walks = None
+    if cfg.endswith('_sim.cfg'):
+        walks = (int(os.environ.get("DLWALKS", "3000")) if tier == "quick" else 40000, 20260926)
+    atoms, tests, r = generate(cfg, 600 if tier == 'quick' else 3000, walks)
+    ev.add_model(r, ('test generation: %d random walks of up to 16 steps over DiffLogicImpl (%s)' % (len(tests), cfg)) if walks
+                 else 'test generation: one test per transition of DiffLogicImpl (%s)' % cfg)
     vlib.build_repo('dbg', targets=['smt'])
     drv = vlib.build_driver('net_driver', 'dbg')
     rd = vlib.run_dir('%s-dlimpl-%s' % (prop, kind))
@@ -139,12 +181,24 @@ def run(ev, prop, tier, real):
     checked = {'episode': 0, 'pop': 0, 'conflict': 0, 'root-assert': 0, 'root-conflict': 0}
     bad = None
     CH = 8000
+    deviating = []
     for c0 in range(0, len(tests), CH):
-        bad = replay_chunk(ev, prop, kind, real, atoms, tests[c0:c0 + CH], c0, drv, rd, findings, checked)
+        bad = replay_chunk(ev, prop, kind, real, atoms, tests[c0:c0 + CH], c0, drv, rd, findings, checked, deviating)
         if bad:
             break
-    ev.cov['model_transitions_replayed_' + kind] = len(tests)
-    ev.cov['model_checkpoints_compared_' + kind] = checked
+    key = kind if not extra else extra.replace('DiffLogicGen_', '').replace('.cfg', '')
+    ev.cov['model_transitions_replayed_' + key] = len(tests)
+    ev.cov['model_checkpoints_compared_' + key] = dict(checked)
+    ev.cov['model_reason_deviations_' + key] = len(deviating)
+    if deviating and not bad:
+        # executions in which the theory explains a propagation differently from the model: NetworkTrace decides whether
+        # the recorded clause is a valid one
+        vlib.log('[dlimpl] %d executions record a reason the model does not (first: %s): NetworkTrace decides' % (len(deviating), deviating[0][0]))
+        import netcheck
+        flat = [ln for (_, e) in deviating[:300] for ln in e]
+        if vlib.validate_batch(ev, prop, 'NetworkTrace', flat, netcheck.signature, 'dlimpl-' + key, timeout=1700, env={'VPROP': prop},
+                               describe_fn=netcheck.describe):
+            return 1
     if bad:
         k, what, msg, lines = bad
         rp = vlib.keep_replay(prop, 'dlimpl-' + kind, lines)
@@ -154,7 +208,7 @@ def run(ev, prop, tier, real):
     return 0
 
 
-def replay_chunk(ev, prop, kind, real, atoms, tests, c0, drv, rd, findings, checked):
+def replay_chunk(ev, prop, kind, real, atoms, tests, c0, drv, rd, findings, checked, deviating):
     all_lines, plans = [], []
     for t in tests:
         lines, cps = translate(atoms, t, real)
@@ -179,7 +233,8 @@ def replay_chunk(ev, prop, kind, real, atoms, tests, c0, drv, rd, findings, chec
             ln = ex[t['n'] + a]
             if ln.get('e') != 'dl_dist' or ln.get('ret') != lit(a + 1):
                 raise vlib.CheckError('unexpected numbering in replay: %s' % outs[k][t['n'] + a][:200])
-        for (idx, what, expected) in cps:
+        dev = None
+        for (idx, what, expected, xvals, xlem) in cps:
             if expected == 'dead' and idx - 1 < len(ex) and ex[idx - 1].get('e') == 'new_clause' and ex[idx - 1].get('ret') == 0:
                 checked[what] = checked.get(what, 0) + 1
                 continue     # refused at once: the driver makes no further call on an inconsistent network
@@ -199,6 +254,11 @@ def replay_chunk(ev, prop, kind, real, atoms, tests, c0, drv, rd, findings, chec
             else:
                 msg = None if out.get('ret', 1) == 1 else 'consistent constraints refused (ret=%s)' % out.get('ret')
                 msg = msg or compare(expected, out, real, t['scale'])
+                # the values of the atoms: everywhere for the properties about propagation, after a pop for C08
+                if not msg and xvals is not None and (what == 'pop' or prop != 'C08'):
+                    msg = compare_vals(xvals, out, len(atoms))
+                if not msg and xlem is not None and not dev:
+                    dev = lemma_deviation(xlem, out)
             checked[what] = checked.get(what, 0) + 1
             if msg:
                 sig = 'dlimpl:%s:%s' % (kind, what)
@@ -212,4 +272,6 @@ def replay_chunk(ev, prop, kind, real, atoms, tests, c0, drv, rd, findings, chec
                 break
         if bad:
             break
+        if dev:
+            deviating.append((dev, outs[k]))
     return bad
